@@ -91,14 +91,22 @@ func (s *gkvp) SerializeValueTo(pc *PrintCtx) {
 	// if sb.jsonMode {
 	// 	sb.appendRune('}')
 	// }
-	// the members are sorted in place while printing and a group may be
-	// shared by concurrent records, so work on a copy.
-	_ = serializeAttrs(pc, slices.Clone(s.items))
+	Attrs(s.items).SerializeValueTo(pc)
 }
 
 func (s Attrs) SerializeValueTo(pc *PrintCtx) {
-	// see gkvp.SerializeValueTo: never sort a possibly shared slice in place.
+	if pc.jsonMode {
+		// the members of a group make a nested JSON object
+		pc.pcAppendByte('{')
+		pc.skipComma = true
+	}
+	// the members are sorted in place while printing and a group may be
+	// shared by concurrent records, so work on a copy.
 	_ = serializeAttrs(pc, slices.Clone(s))
+	if pc.jsonMode {
+		pc.skipComma = false
+		pc.pcAppendByte('}')
+	}
 }
 
 func dedupeSlice[S ~[]E, E any](x S, cmp func(a, b E) bool) S {
@@ -168,7 +176,9 @@ func serializeAttrs(pc *PrintCtx, kvps Attrs) (err error) { //nolint:revive
 			continue
 		}
 
-		if pc.noColor {
+		if pc.skipComma {
+			pc.skipComma = false // the first member of a nested JSON object
+		} else if pc.noColor {
 			pc.pcAppendComma()
 		} else {
 			pc.pcAppendByte(' ')
